@@ -10,6 +10,7 @@ use fibre::error::*;
 use proptest::prelude::*;
 use serde::{Deserialize, Serialize};
 use std::collections::{BTreeMap, BTreeSet};
+use std::future::Future;
 use std::sync::{Arc, Mutex};
 use std::time::Duration;
 use vcore::{CaseReport, Failure};
@@ -366,8 +367,19 @@ fn trace() -> bool {
   std::env::var("VERIF_TRACE").is_ok()
 }
 
-fn block_on<O>(f: BoxFut<'_, O>) -> O {
-  shuttle::future::block_on(f)
+thread_local! {
+  /// polls of harness-driven futures that returned Pending (the task then blocks in block_on)
+  static PENDING_POLLS: std::cell::Cell<u64> = const { std::cell::Cell::new(0) };
+}
+
+fn block_on<O>(mut f: BoxFut<'_, O>) -> O {
+  shuttle::future::block_on(std::future::poll_fn(move |cx| {
+    let r = f.as_mut().poll(cx);
+    if r.is_pending() {
+      PENDING_POLLS.with(|c| c.set(c.get() + 1));
+    }
+    r
+  }))
 }
 
 fn producer_thread(env: Arc<Env>, p: usize, mut h: Box<dyn Tx>, ops: Vec<POp>) {
@@ -678,6 +690,7 @@ struct ExecState {
   seed: u64,
   log: SLog,
   reg: Arc<Registry>,
+  parks: Arc<std::sync::atomic::AtomicU64>,
 }
 
 fn run_many(s: &Scenario, seeds: Vec<u64>) -> Vec<ExecOut> {
@@ -710,12 +723,14 @@ fn run_many(s: &Scenario, seeds: Vec<u64>) -> Vec<ExecOut> {
         return;
       }
       fibre::verif::reset_virtual_clock();
+      PENDING_POLLS.with(|c| c.set(0));
       let log: SLog = Arc::new(Mutex::new(Log::default()));
       let reg = Registry::new();
+      let parks = Arc::new(std::sync::atomic::AtomicU64::new(0));
       let idx = {
         let mut g = states2.lock().unwrap();
         let i = g.len();
-        g.push(ExecState { seed: seeds2[i.min(seeds2.len() - 1)], log: log.clone(), reg: reg.clone() });
+        g.push(ExecState { seed: seeds2[i.min(seeds2.len() - 1)], log: log.clone(), reg: reg.clone(), parks: parks.clone() });
         i
       };
       let _ = idx;
@@ -745,6 +760,7 @@ fn run_many(s: &Scenario, seeds: Vec<u64>) -> Vec<ExecOut> {
       for j in joins {
         let _ = j.join();
       }
+      parks.store(fibre::verif::park_count() + PENDING_POLLS.with(|c| c.get()), std::sync::atomic::Ordering::Relaxed);
       if log.lock().unwrap().failure.is_some() {
         stop2.store(true, std::sync::atomic::Ordering::Relaxed);
       }
@@ -771,7 +787,8 @@ fn run_many(s: &Scenario, seeds: Vec<u64>) -> Vec<ExecOut> {
 }
 
 fn judge(s: &Scenario, st: ExecState, panic_msg: Option<String>, drainer_exists: bool) -> ExecOut {
-  let ExecState { seed, log, reg } = st;
+  let ExecState { seed, log, reg, parks } = st;
+  let parked = parks.load(std::sync::atomic::Ordering::Relaxed) > 0;
   let mut out = ExecOut { failure: None, inconclusive: false, parked: false, classes: vec![], nontrivial: false };
   if let Some(msg) = panic_msg {
     if msg.starts_with("deadlock!") {
@@ -837,9 +854,14 @@ fn judge(s: &Scenario, st: ExecState, panic_msg: Option<String>, drainer_exists:
     "C04" => l.disc_observed || l.closed_send,
     "C02" => two_values_one_producer && (s.producers.len() > 1 || l.batch_used),
     "C09" => unreceived_ok > 0 || l.closed_send,
-    "C05" => true, // refined by the caller with the park information
+    // C05: "at least one thread actually parked ... and was later released" (the execution
+    // finished, so whoever parked was released)
+    "C05" => parked,
     _ => (l.send_refused && l.send_ok) || l.timeout_fired_with_live_sender,
   };
+  if parked {
+    out.classes.push("a_thread_parked_and_was_released");
+  }
   if l.timeout_fired_with_live_sender {
     out.classes.push("timeout_fired_with_live_sender");
   }
